@@ -108,9 +108,9 @@ Theorem C19_postprocess_order_independent : forall m ord1 ord2, Conc.PostProps.m
 Proof. exact Generators.postprocess_order_independent. Qed.
 Print Assumptions C19_postprocess_order_independent.
 
-Theorem C19_relmod_normalize_order_independent : forall cm am o1 o2 m,
+Theorem C19_relmod_normalize_order_independent : forall cm am g o1 o2 m,
   Generators.relmod_perm o1 -> Generators.relmod_perm o2 -> Generators.relmod_wf m ->
-  Relmod.Model.normalize cm am (Generators.reread o1 m) = Relmod.Model.normalize cm am (Generators.reread o2 m).
+  Relmod.Model.normalize cm am g (Generators.reread o1 m) = Relmod.Model.normalize cm am g (Generators.reread o2 m).
 Proof. exact Generators.relmod_normalize_order_independent. Qed.
 Print Assumptions C19_relmod_normalize_order_independent.
 
